@@ -348,3 +348,166 @@ def compare_run(r, m, stats, agg_exact=True):
                             "what": "error %r, model class %s" % (it["errors"][0], mt["stop"][1])})
         compare_aggregate(mrep["agg"], it_all["agg"], view, stats, out)
     return "compared", out
+
+
+# ------------------------------------------------------------------ direct mode
+# render_tx_table_model / render_aggregate_capital_gains driven directly on
+# given deltas and gains (harness binary acbh_render, model entry 1): states
+# the ledger never produces (a sale from an empty position, a superficial-loss
+# record on a row that is not a sale, arbitrary totals) are rendered too.
+def _q(text):
+    return qenc(Fraction(text))
+
+
+def _opt(text):
+    return [0, 0, 1] if text is None else [1] + _q(text)
+
+
+def direct_ints(dc, arith=1):
+    ds = dc["deltas"]
+    at = core.af_table([d["af"] for d in ds if d.get("af") is not None])
+    out = [1, arith, len(ds)]
+    for ri, d in enumerate(ds):
+        i, _, reg = core.af_id(d.get("af") or "")
+        out += [0, d["td"], d["sd"], at[i], int(reg), int(i.startswith("default")), 0, ri]
+        a = d["act"]
+        if a in ("Buy", "Sell"):
+            crate = d["crate"] if d.get("ccur") is not None else d["rate"]
+            out += [0 if a == "Buy" else 1] + _q(d["sh"]) + _q(d["aps"]) + _q(d["com"]) + _q(d["rate"]) + _q(crate)
+            if a == "Sell":
+                if d.get("spec") is not None:
+                    out += [1] + _q(d["spec"][0]) + [int(d["spec"][1])]
+                else:
+                    out += [0]
+        elif a == "RoC":
+            out += [2] + _q(d["aps"]) + _q(d["rate"])
+        elif a == "SfLA":
+            out += [3] + _q(d["sh"]) + _q(d["aps"])
+        else:
+            out += [4] + _q(d["post_split"]) + _q(d["pre_split"]) + [int(bool(d.get("int_only")))]
+        for s in (d["pre"], d["post"]):
+            out += _q(s[0]) + _q(s[1]) + _opt(s[2])
+        out += _opt(d.get("gain"))
+        if d.get("sfl") is not None:
+            out += [1] + _q(d["sfl"][0]) + _q(d["sfl"][1]) + _q(d["sfl"][2]) + [int(d["sfl"][3])]
+        else:
+            out += [0, 0, 1, 0, 1, 0, 1, 0]
+    g = dc["gains"]
+    out += _q(g["total"]) + [len(g["years"])]
+    for y, v in g["years"]:
+        out += [y] + _q(v)
+    out.append(len(ds))
+    for d in ds:
+        c = cur_bytes(d.get("cur"))
+        cc = cur_bytes(d.get("ccur")) if d.get("ccur") is not None else c
+        out += enc_bytes(c) + enc_bytes(cc)
+    return out, at
+
+
+def direct_json(dc):
+    ds = []
+    for ri, d in enumerate(dc["deltas"]):
+        o = dict(d)
+        o["td"] = core.date_str(d["td"])
+        o["sd"] = core.date_str(d["sd"])
+        o["ri"] = ri
+        o["sec"] = "FOO"
+        ds.append(o)
+    return {"deltas": ds, "gains": {"total": dc["gains"]["total"], "years": [[y, v] for y, v in dc["gains"]["years"]]}}
+
+
+def rdec(rng, kind="gez", big=False):
+    """decimal text; kind: gez / pos / any / neg"""
+    k = rng.random()
+    if k < 0.25:
+        t = core.D(rng.choice([0, 1, 2, 3, 5, 10, 100, 250]))[0]
+    elif k < 0.45:
+        t = core.D(rng.randint(0, 300000), 2)[0]
+    elif k < 0.6:
+        t = core.D(rng.randint(0, 10 ** 5) * 10 + 5, 3)[0]            # ties x.xx5
+    elif k < 0.72:
+        t = rng.choice(["0.001", "0.0049", "0.004999999999", "0.005", "0.0050000001", "0.0000000001", "0.00"])
+    elif k < 0.9:
+        t = core.D(rng.randint(0, 10 ** 12), rng.choice([4, 6, 9, 12]))[0]
+    elif big and k < 0.93:
+        t = core.D(rng.randint(10 ** 27, 7 * 10 ** 28))[0]
+    else:
+        t = core.D(rng.randint(0, 10 ** 15), rng.choice([0, 3, 20]))[0]
+    f = Fraction(t)
+    if kind in ("pos", "neg") and f == 0:
+        t = rng.choice(["1", "0.001", "0.005", "2.50"])
+    if kind == "neg" or (kind == "any" and rng.random() < 0.5 and Fraction(t) != 0):
+        t = "-" + t
+    return t
+
+
+def gen_direct(rng):
+    afs = rng.sample(["", "Spouse", "Spouse (R)", "(R)", "Zed"], rng.choice([1, 2, 3]))
+    big = rng.random() < 0.08
+    ds = []
+    day = core.BASE_DAY + rng.randint(0, 900)
+    for _ in range(rng.randint(0, 6)):
+        day += rng.choice([0, 1, 30, 200])
+        act = rng.choice(["Buy", "Sell", "Sell", "Sell", "RoC", "SfLA", "Split"])
+        d = {"td": day - rng.choice([0, 2]), "sd": day, "af": rng.choice(afs), "act": act, "memo": ""}
+        if act in ("Buy", "Sell"):
+            d["sh"] = rdec(rng, "pos", big)
+            d["aps"] = rdec(rng, "gez", big)
+            d["com"] = rng.choice(["0", "0.00", "9.99", "0.005", "1"]) if rng.random() < 0.7 else rdec(rng, "gez")
+            d["cur"], d["rate"] = rng.choice([("CAD", "1"), ("", "1"), ("cad", "1.0"), ("USD", rdec(rng, "pos", big)), ("eur", "1.4505"), ("USD", "1")])
+            if rng.random() < 0.3:
+                d["ccur"], d["crate"] = rng.choice([("CAD", "1"), ("USD", rdec(rng, "pos")), ("GBP", "1.75")])
+            else:
+                d["ccur"], d["crate"] = None, None
+            if act == "Sell" and rng.random() < 0.4:
+                d["spec"] = [rng.choice(["0", rdec(rng, "neg")]), rng.random() < 0.5]
+        elif act == "RoC":
+            d["aps"] = rdec(rng, "gez")
+            d["cur"], d["rate"] = rng.choice([("CAD", "1"), ("USD", rdec(rng, "pos"))])
+        elif act == "SfLA":
+            d["sh"] = rdec(rng, "pos")
+            d["aps"] = rdec(rng, "pos")
+        else:
+            d["post_split"], d["pre_split"] = rng.choice([("2", "1"), ("1", "3"), ("3", "2"), ("1.0", "2.0"), (rdec(rng, "pos"), rdec(rng, "pos"))])
+            d["int_only"] = rng.random() < 0.3
+        for key in ("pre", "post"):
+            sh = rng.choice(["0", "0.0", rdec(rng, "gez", big), rdec(rng, "pos")])
+            al = sh if rng.random() < 0.5 else rdec(rng, "gez")
+            acb = None if rng.random() < 0.2 else rdec(rng, "gez", big)
+            d[key] = [sh, al, acb]
+        d["gain"] = None if rng.random() < 0.3 else rdec(rng, "any", big)
+        d["sfl"] = None if rng.random() < 0.55 else [rdec(rng, "neg"), rdec(rng, "pos"), rdec(rng, "pos"), rng.random() < 0.4]
+        ds.append(d)
+    years = []
+    for y in rng.sample(range(2015, 2026), rng.choice([0, 1, 2, 4])):
+        years.append([y, rdec(rng, "any", big)])
+    return {"deltas": ds, "gains": {"total": rdec(rng, "any", big), "years": years}}
+
+
+def run_direct(exe, dcases, arith=1):
+    impl = run_harness(exe, "table", [direct_json(dc) for dc in dcases])
+    enc = [direct_ints(dc, arith) for dc in dcases]
+    outs = run_model([e[0] for e in enc], group="render")
+    return impl, [parse_direct(o) for o in outs], [e[1] for e in enc]
+
+
+def compare_direct(dc, io, mo, at, stats):
+    out = []
+    if mo["status"] != "ok":
+        return [{"view": "-", "table": "direct", "column": "-", "row": None, "what": "model rejected its input (%s)" % mo.get("code")}]
+    names = {"sec": {0: "FOO"}, "aff": {v: k for k, v in at.items()}, "memo": {}}
+    for view in ("full", "cents"):
+        for key, akey in ((view, None), ("agg_" + view, "agg")):
+            it, mt = io[key], mo[key]
+            ipanic = it.get("status") == "panic"
+            if ipanic or mt["status"] != "ok":
+                stats["direct:panic-compared"] += 1
+                if ipanic != (mt["status"] == "panic"):
+                    out.append({"view": view, "table": "direct " + key, "column": "-", "row": None,
+                                "what": "implementation %s, model %s" % ("panicked (%s)" % str(it.get("panic"))[:160] if ipanic else "rendered", mt["status"] + str(mt.get("panic", "")))})
+                continue
+            if akey is None:
+                compare_table(mt["value"], it, names, view, "direct", stats, out)
+            else:
+                compare_aggregate(mt["value"], it, view, stats, out)
+    return out
